@@ -153,8 +153,15 @@ def run_shard(shard_prop, bins, workdir, tier):
     for fl, binary in bins.items():
         by_id = {c[0]: (c[1], c[2]) for c in cases}
         wit = case_witness(by_id, fl, thorough)
-        logs = run_batch(binary, fl, cases, workdir, '%s-%s-%s' % (prop, kind, seed), thorough)
+        # the slow flavours (one mapping per allocation, -O0 + gcov, MSan) see every fourth case of the
+        # random shards in the thorough tier; the directed shard runs everywhere in full
+        sub = cases
+        if thorough and kind == 'trees' and fl in ('efence', 'cov', 'msan'):
+            sub = [c for c in cases if (c[0] // len(cfgs)) % 4 == 0]
+        logs = run_batch(binary, fl, sub, workdir, '%s-%s-%s' % (prop, kind, seed), thorough)
         for cid, (ti, cfg) in meta.items():
+            if cid not in logs:
+                continue
             cl = logs[cid]
             mk, model, mode, label = trees[ti]
             out.vios += mechanical_violations(prop, cl, wit)
